@@ -151,7 +151,22 @@ def run(ctx):
                           "(never equal)" % n.comparators[0].value, node=n)
     if R.error_parser is None:
         raise AnalysisError("Q2", "error parser not identified")
-    epcalls = self_calls(lin, R.error_parser.name)
+    epcalls = self_calls(lin, R.error_parser.name) if not R.error_parser_inline else []
+    if R.error_parser_inline:
+        # the error text is decoded in the line reader itself: every NO reply must assign both attributes before Response
+        for attr in ("errcode", "errmsg"):
+            an = [x for x in cfg.stmt_nodes() if isinstance(x.ast, ast.Assign) and any(
+                isinstance(t, ast.Attribute) and t.attr == attr for t in x.ast.targets)]
+            for r in resp:
+                for n in cfg.nodes_for(r):
+                    if an and cfg.guarded(n, st_fact(b"NO", False), establish=lambda m, an=an: m in an):
+                        ctx.holds("Q2", "%s: every NO reply assigns %s before Response" % (lin.qualname, attr))
+                    else:
+                        ctx.violation("Q2", lin, "no-skips-error-parser", "a NO reply can reach Response without %s being set" % attr,
+                                      node=r, witness="after a NO the client still shows the previous error text")
+            for x in an:
+                if not cfg.guarded(x, st_fact(b"NO", True)):
+                    ctx.violation("Q2", lin, "error-parser-unguarded", "%s is assigned for replies other than NO" % attr, node=x.ast)
     for c in epcalls:
         for n in cfg.node_containing(c):
             if cfg.guarded(n, st_fact(b"NO", True)):
@@ -159,7 +174,7 @@ def run(ctx):
             else:
                 ctx.violation("Q2", lin, "error-parser-unguarded", "the error parser runs for replies other than NO", node=c)
     # NO must reach the error parser before Response
-    for r in resp:
+    for r in (resp if not R.error_parser_inline else []):
         for n in cfg.nodes_for(r):
             ep_nodes = [x for c in epcalls for x in cfg.node_containing(c)]
             # paths to Response avoiding the error parser must carry the fact NO == False
@@ -201,6 +216,12 @@ def run(ctx):
                 continue
             st = stmt_of(node)
             v = const_value(ctx.program, f, st.value) if isinstance(st, (ast.Assign, ast.AnnAssign)) and st.value is not None else TOP
+            if v is TOP and isinstance(st, ast.Assign) and isinstance(st.value, ast.Name):
+                # a local that only ever holds constants (one per refusal reason)
+                defs = [a.value for a in walk_no_nested(f.node) if isinstance(a, ast.Assign) and any(
+                    isinstance(t, ast.Name) and t.id == st.value.id for t in a.targets)]
+                if defs and all(const_value(ctx.program, f, d) is not TOP for d in defs):
+                    v = None
             if v is TOP:
                 ctx.violation("Q5", f, "errattr-written:%s" % attr, "%s is assigned a computed value outside the error parser: %s"
                               % (attr, norm(st)), node=node)
@@ -242,10 +263,26 @@ def q34(ctx, R):
     ep = R.error_parser
     cfge = ctx.cfg(ep)
     text_param = ep.params[1] if len(ep.params) > 1 else None
+    if getattr(R, "error_parser_inline", False):
+        # decoded in place: the tail is the variable the error pattern is applied to
+        text_param = None
+        for c in walk_no_nested(ep.node):
+            if isinstance(c, ast.Call) and isinstance(c.func, ast.Attribute) and c.func.attr == "match" and c.args and isinstance(c.args[0], ast.Name):
+                pr = R.pattern_of(c.func.value, ep)
+                if pr and proto_kind(pr[1]) not in ("size", "status", "active"):
+                    text_param = c.args[0].id
     if text_param is None:
         raise AnalysisError("Q4", "error parser takes no text parameter")
     T = rx.Pattern(ms_spec.NO_TAIL)
+    inline_ep = getattr(R, "error_parser_inline", False)
     eraises = [r for r in walk_no_nested(ep.node) if isinstance(r, ast.Raise)]
+    if inline_ep:
+        # only the part of the line reader that handles a NO reply plays the error parser; its final `raise Response` is the
+        # normal way out (rule Q2), any other raise there is judged
+        def no_reply(fact):
+            r_ = eq_const_fact(fact, lambda c: c in (b"NO", "NO"))
+            return bool(r_ and r_[2] is True)
+        eraises = [r for r in eraises if raise_name(r) != "Response" and any(cfge.guarded(x, no_reply) for x in cfge.nodes_for(r))]
     for r in eraises:
         # patterns whose failure guards this raise
         pats = []
@@ -363,8 +400,8 @@ def q34(ctx, R):
                 ctx.violation("Q6", ep, "code-group-greedy", "the response-code group of %r can match %r: a `)` inside the text of a NO reply is "
                               "taken as the end of the code" % (pr[1], d[0]), node=n,
                               witness='`NO (QUOTA/MAXSIZE) "too large (limit 10)"`: errcode swallows the text, errmsg is empty')
-    # both attributes set on every normal path
-    for attr in ("errcode", "errmsg"):
+    # both attributes set on every normal path (for the in-place form rule Q2 demands it on every NO path to Response)
+    for attr in (("errcode", "errmsg") if not inline_ep else ()):
         stores = [x for x in cfge.stmt_nodes() if isinstance(x.ast, ast.Assign) and any(
             isinstance(t, ast.Attribute) and t.attr == attr for t in x.ast.targets)]
         if stores and cfge.dominates(stores, cfge.exit, exc=False):
